@@ -26,6 +26,7 @@ pub struct Report {
     pub inconclusive: Vec<String>,
     pub counters: BTreeMap<String, u64>,
     pub sets: BTreeMap<String, HashSet<u64>>,
+    pub maxes: BTreeMap<String, u64>,
     pub extra: Vec<(String, J)>,
     pub exhaustive: Option<bool>,
     pub floors: Vec<(String, bool)>,
@@ -43,6 +44,15 @@ impl Report {
     }
     pub fn add(&mut self, key: &str, n: u64) {
         *self.counters.entry(key.to_string()).or_insert(0) += n;
+    }
+    pub fn max(&mut self, key: &str, v: u64) {
+        let e = self.maxes.entry(key.to_string()).or_insert(0);
+        if v > *e {
+            *e = v;
+        }
+    }
+    pub fn get_max(&self, key: &str) -> u64 {
+        self.maxes.get(key).copied().unwrap_or(0)
     }
     pub fn get(&self, key: &str) -> u64 {
         self.counters.get(key).copied().unwrap_or(0)
@@ -88,6 +98,9 @@ impl Report {
         for (k, v) in o.counters {
             *self.counters.entry(k).or_insert(0) += v;
         }
+        for (k, v) in o.maxes {
+            self.max(&k, v);
+        }
         for (k, v) in o.sets {
             self.sets.entry(k).or_default().extend(v);
         }
@@ -100,6 +113,9 @@ impl Report {
     pub fn to_json(&self, id: &str, tier: &str, seed: u64, profile: &str, wall_s: f64) -> J {
         let mut counters = vec![];
         for (k, v) in &self.counters {
+            counters.push((k.clone(), J::Int(*v as i128)));
+        }
+        for (k, v) in &self.maxes {
             counters.push((k.clone(), J::Int(*v as i128)));
         }
         for (k, v) in &self.sets {
